@@ -55,6 +55,10 @@ def run(eng, ctx):
         if isinstance(st_, ast.Assign) and len(st_.targets) == 1 and isinstance(st_.targets[0], ast.Name) and isinstance(st_.value, ast.Call) and norm(st_.value.func) in ("re.compile", "compile") \
                 and len(st_.value.args) == 1 and isinstance(st_.value.args[0], ast.Constant) and isinstance(st_.value.args[0].value, str) and not st_.value.keywords:
             g[st_.targets[0].id] = ("regex", st_.value.args[0].value)
+    # module-level scalar constants of the helper module (a named separator, a width, ...)
+    for nm_, val_ in eng.ce.module_env("rtcmhelpers").items():
+        if isinstance(val_, (str, int)) and not isinstance(val_, bool) and nm_ not in g and not nm_.startswith("__"):
+            g[nm_] = val_
     ctx.instance("generable name shapes", len(sh), 500)
     ctx.notes["exhaustive"] = True
     ctx.notes["shape_depths"] = {str(d): sum(1 for (_, dd) in sh if dd == d) for d in sorted({dd for _, dd in sh})}
